@@ -173,6 +173,36 @@ class BuiltinMixin:
             return [Res(s, SV(vint(ln(a)), TINT))]
         return self._simple(node, st, fn)
 
+    def bi_next(self, node, st):
+        """next(iter(<dict>.values())): the value of some key of the dict (its first one); StopIteration when the dict is empty"""
+        a0 = node.args[0] if node.args else None
+        ok_shape = (isinstance(a0, ast.Call) and isinstance(a0.func, ast.Name) and a0.func.id == "iter" and len(a0.args) == 1
+                    and isinstance(a0.args[0], ast.Call) and isinstance(a0.args[0].func, ast.Attribute) and a0.args[0].func.attr == "values"
+                    and not a0.args[0].args)
+        if not ok_shape or len(node.args) != 1:
+            raise Untranslatable("next() over something else than iter(<dict>.values())")
+        out = []
+        for r in self.eval(a0.args[0].func.value, st):
+            if r.exc is not None:
+                out.append(r)
+                continue
+            d = r.val
+            if strip_opt(d.ty).kind != "dict":
+                raise Untranslatable(f"next(iter(x.values())) with x: {d.ty}")
+            a = Val.a(d.t)
+            s = r.st
+            self.truth(s, d)          # links len and key set
+            empty, some = s.fork(s.d_len(a) == 0, "empty"), s.fork(s.d_len(a) != 0)
+            if self.feasible(empty):
+                out.append(self.raise_new(empty, "StopIteration"))
+            if self.feasible(some):
+                k = fresh("firstkey")
+                some.assume(some.d_has(a, k))
+                vty = strip_opt(d.ty).args[1] if len(strip_opt(d.ty).args) > 1 else ANY
+                some.trace.append(("first-value", a, k))
+                out.append(Res(some, self.typed(some, some.d_get(a, k), vty)))
+        return out
+
     def bi_all(self, node, st):
         return self._quant(node, st, True)
 
@@ -405,6 +435,11 @@ class BuiltinMixin:
             f = z3.Function("str_contains", Val, Val, B)
             st.assume(z3.Implies(z3.And(f(s_.t, sep), Val.i(mx) != 0), ln >= 2))
         return [Res(st, SV(vref(a), LIST(TSTR)))]
+
+    def m_str_replace(self, st, s_, pos, kw, node):
+        """str.replace(old, new) on opaque strings: an uninterpreted function of its three arguments"""
+        from .smt import str_replace
+        return [Res(st, self.typed(st, str_replace(s_.t, pos[0].t, pos[1].t), TSTR))]
 
     def m_list_append(self, st, l, pos, kw, node):
         a = Val.a(l.t)
